@@ -17,7 +17,9 @@ const (
 	EVConstExceptionClassName       = "异常"
 	EVConstExceptionContentProperty = "内容"
 	EVConstThisVariableName         = "此"
-	MODULE_NAME_MAIN                = "主模块"
+	// the main file has no import name: its module is registered under a name that no 导入
+	// statement can resolve to a file (a module file called 主模块.zn must stay importable)
+	MODULE_NAME_MAIN = "\x00主模块"
 )
 
 // eval.go evaluates program from generated AST tree with specific scopes
